@@ -227,13 +227,96 @@ class C15(Prop):
             if not fin:
                 s.take_seq()
 
+    def retry_family(self, s, rng):
+        """start-up auto tasks ENABLED; unsolicited fragments (data, null, malformed) arrive before / during /
+        after the start-up integrity poll and are retried byte-identically later.  A fragment that was ignored
+        (gated by the start-up sequence, malformed) must not count as "seen": its retry is a first delivery."""
+        s.cfg.update({"disable_unsol": rng.choice([7, 0, 0]), "integrity": rng.choice([15, 1, 14]),
+                      "enable_unsol": rng.choice([7, 0]), "retry_min": 100, "retry_max": 400})
+        pend = []            # fragments seen so far: [frag, verdict, items, accepted_before]
+        last = [None]        # the fragment accepted last
+
+        def unsol(phase_open, frag=None):
+            """one unsolicited fragment now; phase_open = the integrity poll has completed"""
+            if frag is None:
+                kind = rng.choice(["data", "data", "null", "bad"])
+                f, v, items = unsol_fragment(rng, kind=kind)
+                frag = [f, v, items]
+                pend.append(frag)
+            f, v, items = frag
+            acceptable = v == "ok" and (phase_open or len(f) == 4)
+            intent = None
+            if acceptable:
+                intent = "deliver" if last[0] != f else None
+                last[0] = f
+            s.rx(f, v, items, intent=intent)
+
+        def retries(phase_open):
+            for fr in list(pend):
+                if rng.chance(2, 3):
+                    unsol(phase_open, fr)
+                    if rng.chance(1, 3):
+                        unsol(phase_open, fr)       # and once more: now a true repeat if it was accepted
+
+        def some(phase_open):
+            for _ in range(rng.range(0, 2)):
+                unsol(phase_open)
+            if rng.chance(1, 2):
+                retries(phase_open)
+
+        # before: DISABLE_UNSOLICITED outstanding (when configured)
+        if s.cfg["disable_unsol"]:
+            seq = s.take_seq()
+            some(False)
+            s.rx(response(ctrl(1, 1, rng.chance(1, 3), 0, seq), 0, 0, b""), intent="complete")
+        # during: the integrity poll is outstanding
+        seq = s.take_seq()
+        for _ in range(rng.range(1, 2)):
+            unsol(False)
+        if rng.chance(1, 2):
+            retries(False)
+        o = rand_objs(rng, 2)
+        if rng.chance(1, 3):
+            s.rx(response(ctrl(1, 0, 1, 0, seq), 0, 0, o.data), "ok", o.items, intent="deliver")
+            seq = s.take_seq()
+            if rng.chance(1, 2):
+                retries(False)                          # still during: the series is not finished
+            o = rand_objs(rng, 1)
+            s.rx(response(ctrl(0, 1, 0, 0, seq), 0, 0, o.data), "ok", o.items, intent="complete")
+        else:
+            s.rx(response(ctrl(1, 1, rng.chance(1, 3), 0, seq), 0, 0, o.data), "ok", o.items, intent="complete")
+        # after: the outstation retries what was not confirmed, byte for byte
+        if s.cfg["enable_unsol"]:
+            seq = s.take_seq()
+            if rng.chance(1, 2):
+                retries(True)                           # while ENABLE_UNSOLICITED is outstanding
+            s.rx(response(ctrl(1, 1, 0, 0, seq), 0, 0, b""), intent="complete")
+        retries(True)
+        some(True)
+        if rng.chance(1, 3):
+            # the outstation restarts: IIN1.7 in a null unsolicited response closes the gate again
+            f = response(ctrl(1, 1, 1, 1, rng.below(16)), 0x80, 0, b"", 0x82)
+            s.rx(f, "ok", [], intent="deliver" if last[0] != f else None)
+            last[0] = f
+            seq = s.take_seq()                          # clear restart
+            unsol(False)
+            s.rx(response(ctrl(1, 1, 0, 0, seq), 0, 0, b""), intent="complete")
+            seq = s.take_seq()                          # integrity poll again
+            retries(False)
+            s.rx(response(ctrl(1, 1, 0, 0, seq), 0, 0, b""), "ok", [], intent="complete")
+            if s.cfg["enable_unsol"]:
+                seq = s.take_seq()
+                s.rx(response(ctrl(1, 1, 0, 0, seq), 0, 0, b""), intent="complete")
+            retries(True)
+        s.sleep(rng.choice([5, 50]))
+
     def cases(self, rng, tier):
         n = 420 if tier == "quick" else 6000
         out = []
         for i in range(n):
             sid = "c15_%d" % i
             fam = rng.choice(["single", "single", "single", "multi", "multi", "idle", "startup", "restart_iin", "seqsweep",
-                              "flagsweep"])
+                              "flagsweep", "retry", "retry"])
             cfg = {"timeout": TIMEOUT}
             if rng.chance(1, 6):
                 cfg["decode"] = rng.choice([1, 2, 3])
@@ -307,6 +390,8 @@ class C15(Prop):
                 else:
                     s.sleep(TIMEOUT + 150)
                 s.sleep(rng.choice([10, 500, 1200]))
+            elif fam == "retry":
+                self.retry_family(s, rng)
             elif fam == "restart_iin":
                 # IIN1.7 in an accepted response starts the clear-restart auto task
                 task = start_task(s, rng, rng.choice(["empty", "restart", "read"]))
@@ -479,6 +564,10 @@ class C15(Prop):
                     if cbs != want_cb:
                         fails.append(("duplicate-unsolicited" if dup else "delivered-once-in-order",
                                       "handler saw %d callbacks, expected %d: %s" % (len(cbs), len(want_cb), where)))
+                if confirms and not cbs and not (accepted_unsol and pre_unsol == frag):
+                    fails.append(("confirmed-not-delivered",
+                                  "an unsolicited fragment was confirmed although it is not a repeat of the fragment accepted "
+                                  "last and nothing reached the handler: " + where))
                 if pv != "ok" and (confirms or accepted_unsol):
                     if True:
                         fails.append(("confirmed-not-delivered",
